@@ -89,7 +89,25 @@ def run(pid, tier, sel):
         data, stderr, dt, cmd = run_verus(path)
         res = data.get("verification-results", {})
         if res.get("encountered-vir-error") or (res.get("encountered-error") and res.get("verified", 0) == 0 and res.get("errors", 0) == 0):
-            raise Undecided("verus could not process the extracted text (unsupported construct / type error):\n%s" % stderr[-2500:])
+            # The extracted text no longer type-checks under the contracts (the functions were restructured).
+            # Route V cannot decide; the bounded native search on the real code stands in: a disagreement with
+            # the specification twin is a violation with a concrete input, agreement leaves the check undecided.
+            status, txt = native_small_scope()
+            if status == "disagree":
+                records = []
+                payload = {"property": pid, "obligation": "native_small_scope_search", "kind": "native_small_scope",
+                           "verifier": "verus could not type-check the extracted functions against their contracts; bounded native search on the real SubTimeline (N<=4 keyframes, 5-point grid) found a disagreement with the specification",
+                           "native_output": txt, "native_confirmed": True, "verus_output": stderr[-3000:]}
+                rf = vlib.write_replay(pid, "native_small_scope_search", payload)
+                rec = {"engine": "verus+native", "id": "native_small_scope_search", "kind": "bounded", "function": "SubTimeline::{from_keyframes,value_at}",
+                       "clause": "real SubTimeline == specification twin on every keyframe list with N<=4 over the 5-point grid", "solver": "native", "bounded": "N<=4 keyframes, positions on {0,1/4,1/2,3/4,1}",
+                       "checks": 1, "checks_ok": 0, "solver_s": 0.0, "verdict": "fail", "detail": txt[-600:], "failed_checks": ["native_small_scope_search::disagreement"],
+                       "native_confirmed": True, "replay_file": rf, "assumes": []}
+                records.append(rec)
+                return {"records": records, "functions": rep["functions"], "file_sha": vlib.sha(text), "extraction": {"edits_applied": rep["edits_applied"], "dropped": rep["dropped"], "edits_catalogue": rep["edits_catalogue"]},
+                        "assumption_scan": rep["assumption_scan"], "verus_cmd": cmd.replace(d, "<scratch>"), "verified": 0, "errors": None, "time_s": round(dt, 2), "trusted": [], "assumptions": []}
+            raise Undecided("verus could not process the extracted text (unsupported construct / type error); the bounded native search on the real code %s:\n%s"
+                            % ("agrees with the specification (N<=4)" if status == "agree" else "could not run", stderr[-2500:]))
         errs = parse_errors(stderr, text)
         ranges = fn_ranges(text)
         per_fn = {}
@@ -110,6 +128,7 @@ def run(pid, tier, sel):
             return out
 
         records = []
+        native_cache = {}
         for v in sel:
             fb = per_fn.get(v["function"])
             es = errors_of(v["function"])
@@ -131,6 +150,15 @@ def run(pid, tier, sel):
                                "verifier_output": stderr[-6000:], "native_confirmed": False,
                                "note": "no-failing-input-found: this obligation verifies on the pinned tree and now fails with a logical error"}
                     rec["native_confirmed"] = False
+                    if v["function"].startswith("SubTimeline::") or v["function"].startswith("SplitKeyframe::"):
+                        if "status" not in native_cache:
+                            native_cache["status"], native_cache["txt"] = native_small_scope()
+                        if native_cache["status"] == "disagree":
+                            payload["kind"] = "native_small_scope"
+                            payload["native_output"] = native_cache["txt"]
+                            payload["native_confirmed"] = True
+                            payload["note"] = "failing input found by the bounded native search on the real SubTimeline (see native_output)"
+                            rec["native_confirmed"] = True
                     rec["replay_file"] = vlib.write_replay(pid, v["id"], payload)
                 else:
                     rec.update(verdict="undecided", detail="verus did not decide: " + "; ".join(e["msg"] for e in other[:3]) or "rlimit/timeout")
@@ -145,5 +173,38 @@ def run(pid, tier, sel):
                             "V-R1: from_keyframes takes &Vec<Keyframe<Data>> instead of impl IntoIterator (the derive macro's only call shape)",
                             "the value function passed to from_keyframes is pure (callable everywhere, functional)"],
         }
+    finally:
+        vlib.remove_scratch(d)
+
+
+NATIVE_TARGET = os.path.join(vlib.CACHE, "native-target")
+
+
+def native_small_scope():
+    """Run the small-scope native search (contracts/native/verif_native_search.rs) on the real
+    SubTimeline in a scratch copy of /repo. -> (status, text): 'agree' | 'disagree' | 'error'."""
+    d, r = vlib.make_scratch("n")
+    try:
+        import shutil
+        shutil.copyfile(os.path.join(vlib.VERIF, "contracts/native/verif_native_search.rs"), os.path.join(r, "core/src/verif_native_search.rs"))
+        p = os.path.join(r, "core/src/timeline_helpers.rs")
+        if not os.path.exists(p):
+            return "error", "core/src/timeline_helpers.rs missing"
+        open(p, "a").write("\n#[cfg(test)]\n#[path = \"verif_native_search.rs\"]\nmod verif_native_search;\n")
+        env = dict(os.environ)
+        env["CARGO_NET_OFFLINE"] = "true"
+        env["CARGO_TARGET_DIR"] = NATIVE_TARGET
+        cmd = ["cargo", "test", "--offline", "--release", "-p", "mina_core", "--lib", "verif_native_search", "--", "--nocapture"]
+        try:
+            pr = subprocess.run(cmd, cwd=r, env=env, stdout=subprocess.PIPE, stderr=subprocess.STDOUT, text=True, timeout=1800)
+        except subprocess.TimeoutExpired:
+            return "error", "native search timed out"
+        out = pr.stdout
+        m = re.search(r"^test \S*small_scope_search \.\.\. (ok|FAILED)", out, re.M)
+        i = out.find("running 1 test")
+        tail = out[i:] if i >= 0 else out[-3000:]
+        if not m:
+            return "error", tail[-3000:]
+        return ("agree" if m.group(1) == "ok" else "disagree"), tail[:6000]
     finally:
         vlib.remove_scratch(d)
